@@ -260,3 +260,88 @@ func TestBoundedC11InOperand(t *testing.T) {
 		t.Fatalf("%d of %d cases fail", fails, cases)
 	}
 }
+
+// Every operator name of the documented table (README: long and short forms) parses to the
+// operator it is documented as: the parsed query prints and matches like the query built through
+// the API with that operator. (Print always uses the long form, so the round-trip family above
+// never exercises the short forms.)
+func TestBoundedC11OperatorNames(t *testing.T) {
+	table := []struct {
+		name string
+		op   uint8
+	}{
+		{"==", Equals}, {">", GreaterThan}, {">=", GreaterThanOrEqual}, {"<", LessThan}, {"<=", LessThanOrEqual},
+		{"f==", FloatEquals}, {"f>", FloatGreaterThan}, {"f>=", FloatGreaterThanOrEqual}, {"f<", FloatLessThan}, {"f<=", FloatLessThanOrEqual},
+		{"sameas", SameAs}, {"s==", SameAs}, {"contains", Contains}, {"co", Contains}, {"startswith", StartsWith}, {"sw", StartsWith},
+		{"endswith", EndsWith}, {"ew", EndsWith}, {"in", In}, {"matches", Matches}, {"re", Matches}, {"is", Is}, {"exists", Exists}, {"ex", Exists},
+	}
+	var accs []accessor.Accessor
+	for _, o := range []map[string]interface{}{{"a": "final"}, {"a": "canal"}, {"a": "fin"}, {"a": "x,final"}, {"a": 5}, {"a": 4.5}, {"a": 6}, {"a": true}, {"a": false}, {"b": 1}, {"a": "5"}} {
+		data, _ := json.Marshal(o)
+		s := string(data)
+		accs = append(accs, accessor.NewJSONAccessor(&s))
+	}
+	cases, fails := 0, 0
+	for _, e := range table {
+		var textVal string
+		var apiVal interface{}
+		switch {
+		case e.op <= LessThanOrEqual:
+			textVal, apiVal = "5", 5
+		case e.op <= FloatLessThanOrEqual:
+			textVal, apiVal = "4.5", 4.5
+		case e.op == In:
+			textVal, apiVal = "final,fin", []string{"final", "fin"}
+		case e.op == Matches:
+			textVal, apiVal = "^fin", "^fin"
+		case e.op == Is:
+			textVal, apiVal = "true", true
+		case e.op == Exists:
+			textVal, apiVal = "", nil
+		default:
+			textVal, apiVal = "fin", "fin"
+		}
+		for _, neg := range []bool{false, true} {
+			cases++
+			text := "query t: where a "
+			if neg {
+				text += "not "
+			}
+			text += e.name
+			if textVal != "" {
+				text += " " + textVal
+			}
+			cond := Where("a", e.op, apiVal)
+			if neg {
+				cond = Not(cond)
+			}
+			want, err := New("t:").Where(cond).Check()
+			if err != nil {
+				t.Fatal(err)
+			}
+			bad := ""
+			got, err := ParseQuery(text)
+			switch {
+			case err != nil:
+				bad = "does not parse: " + err.Error()
+			case got.Print() != want.Print():
+				bad = fmt.Sprintf("parses to %q, documented meaning %q", got.Print(), want.Print())
+			default:
+				for _, acc := range accs {
+					if got.MatchesAccessor(acc) != want.MatchesAccessor(acc) {
+						bad = "matches other records than the documented operator"
+						break
+					}
+				}
+			}
+			if bad != "" {
+				fails++
+				fmt.Printf("BOUNDED-FAIL name=C11/operator-names input=%q %s\n", text, bad)
+			}
+		}
+	}
+	fmt.Printf("BOUNDED name=C11/operator-names cases=%d distinct=%d bound=the %d documented operator names (long and short forms), plain and negated, parsed from text and compared (print, verdict on %d witness records) with the query built through the API\n", cases, cases, len(table), len(accs))
+	if fails > 0 {
+		t.Fatalf("%d of %d cases fail", fails, cases)
+	}
+}
